@@ -24,6 +24,7 @@ def build_enum(r, name, n, mask, generics=None, kinds=None):
     gen.ensure_generics_used(r, spec)
     gen.add_noise(r, spec)
     gen.rawify(r, spec, explicit_names=False)
+    gen.maybe_macro_wrap(r, spec)
     for v in spec.variants:
         if v.kind == "tuple" and len(v.fields) == 1 and v.fields[0].ty in ("u8", "i32", "bool", "String") and r.random() < 0.3:
             v.default_with = "noise_default_with"     # consumed by EnumString only; EnumIter must still use Default::default()
